@@ -33,7 +33,7 @@ REACH = {"quick": {"op:tail": 300, "op:insert": 300, "op:sort": 500, "op:unique"
                    "tail:n=0": 30, "insert:at-or-past-end": 60, "insert:negative": 60, "sort:none-present": 150, "len:0": 200}}
 
 OPS = ["modify_dep", "modify_if2", "modify2", "fill_after_inplace_key", "filter_pred", "filter_kv", "filter_out_pred", "filter_out_kv", "sort", "unique", "select", "unselect", "rename", "modify", "modify_if",
-       "fill_missing_keys", "fill_missing_keys_all", "append", "extend", "insert", "add", "mul", "reverse", "head", "tail", "slice", "copy", "drop_na"]
+       "fill_missing_keys", "fill_missing_keys_all", "append", "extend", "insert", "add", "mul", "reverse", "head", "tail", "slice", "copy", "drop_na", "extend_self", "add_self"]
 
 def gen_items(rng, n, start=0):
     items = []
@@ -67,7 +67,7 @@ def generate(rng, tier):
         elif op == "fill_missing_keys": arg = rng.choice([{"c": 0}, {"d": "fill", "e": None}])
         elif op == "append": arg = {"_tag_": 1000 + rng.randint(0, 99), "a": 9}
         elif op == "extend": arg = gen_items(rng, rng.randint(0, 3), start=2000 + rng.randint(0, 50) * 10)
-        elif op == "insert": arg = (rng.choice(["0", "mid", "len", "len+3", "-1", "-len", "1"]), {"_tag_": 3000 + rng.randint(0, 99), "a": 7})
+        elif op == "insert": arg = (rng.choice(["0", "mid", "len", "len+3", "-1", "-len", "1", "-len-2"]), {"_tag_": 3000 + rng.randint(0, 99), "a": 7})
         elif op == "add": arg = gen_items(rng, rng.randint(0, 3), start=4000 + rng.randint(0, 50) * 10)
         elif op == "mul": arg = rng.choice([0, 1, 3, -1, 2])
         elif op in ("head", "tail"): arg = rng.choice(["0", "1", "len-1", "len", "len+2", "none", "2"])
@@ -151,9 +151,10 @@ def model(L, op, arg):
         return [dict({k: None for k in allk if k not in x}, **x) for x in L]
     if op == "append": return L + [arg]
     if op in ("extend", "add"): return L + list(arg)
+    if op in ("extend_self", "add_self"): return L + L        # the list itself as the argument
     if op == "insert":
         pos, item = arg
-        i = {"0": 0, "mid": n // 2, "len": n, "len+3": n + 3, "-1": -1, "-len": -n, "1": 1}[pos]
+        i = {"0": 0, "mid": n // 2, "len": n, "len+3": n + 3, "-1": -1, "-len": -n, "1": 1, "-len-2": -n - 2}[pos]
         out = list(L)
         out.insert(i, item)
         return out
@@ -193,13 +194,19 @@ def apply(di, data, op, arg):
     if op == "fill_missing_keys": return data.deepcopy().fill_missing_keys(**arg)
     if op == "fill_missing_keys_all": return data.deepcopy().fill_missing_keys()
     if op == "append": return data.append(dict(arg))
-    if op == "extend": return data.extend([dict(x) for x in arg])
+    if op == "extend":
+        items = [dict(x) for x in arg]
+        # any iterable of dicts, as for list.extend: list, tuple, one-shot iterators
+        form = len(repr(arg)) % 5
+        return data.extend(items if form < 2 else (tuple(items) if form == 2 else (iter(items) if form == 3 else (x for x in items))))
     if op == "insert":
         pos, item = arg
-        i = {"0": 0, "mid": n // 2, "len": n, "len+3": n + 3, "-1": -1, "-len": -n, "1": 1}[pos]
+        i = {"0": 0, "mid": n // 2, "len": n, "len+3": n + 3, "-1": -1, "-len": -n, "1": 1, "-len-2": -n - 2}[pos]
         return data.insert(i, dict(item))
     if op == "add": return data + di.ListOfDicts([dict(x) for x in arg])
     if op == "mul": return data * arg
+    if op == "extend_self": return data.extend(data)
+    if op == "add_self": return data + data
     if op == "reverse": return data.reverse()
     if op in ("head", "tail"):
         if arg == "none": return getattr(data, op)()
@@ -250,14 +257,14 @@ def execute(case):
             res.skip(f"domain:{op}")
             continue
         name = {"filter_pred": "filter", "filter_kv": "filter", "filter_out_pred": "filter_out", "filter_out_kv": "filter_out",
-                "fill_missing_keys_all": "fill_missing_keys", "modify_if2": "modify_if", "modify2": "modify", "modify_dep": "modify", "fill_after_inplace_key": "fill_missing_keys"}.get(op, op)
+                "fill_missing_keys_all": "fill_missing_keys", "modify_if2": "modify_if", "modify2": "modify", "modify_dep": "modify", "fill_after_inplace_key": "fill_missing_keys", "extend_self": "extend", "add_self": "add"}.get(op, op)
         res.cls(f"op:{name}")
         n = len(L)
         feat = "plain"
         if op == "tail" and arg == "0": res.cls("tail:n=0"); feat = "n=0"
         if op == "insert":
             if arg[0] in ("len", "len+3"): res.cls("insert:at-or-past-end"); feat = "at-or-past-end"
-            elif arg[0] in ("-1", "-len"): res.cls("insert:negative"); feat = "negative-index"
+            elif arg[0] in ("-1", "-len", "-len-2"): res.cls("insert:negative"); feat = "negative-index"
         if op == "sort" and any(x[k] is None for x in L for k, _ in arg): res.cls("sort:none-present")
         exp = model(copy.deepcopy(L), op, copy.deepcopy(arg))
         try:
